@@ -987,6 +987,8 @@ func ruleR0211(c *Ctx) {
 			var xid *ast.Ident
 			if sel, ok := ast.Unparen(call.Fun).(*ast.SelectorExpr); ok && sel.Sel.Name == "Func" {
 				xid, _ = ast.Unparen(sel.X).(*ast.Ident)
+			} else if d := funcValueExec(c, fg, call); d != nil {
+				xid, _ = ast.Unparen(d).(*ast.Ident)
 			} else if cal := Callee(info, call); cal != nil && cal.Pkg() == fg.Types {
 				if hd := findFuncDecl(fg, cal); hd != nil && hd.Body != nil && hd.Type.Params != nil {
 					pi := 0
